@@ -485,9 +485,15 @@ Qed.
 Lemma rv_length v : okP RV (length_ v).
 Proof. destruct v; try exact I; reflexivity. Qed.
 Lemma rv_lower v : okP RV (lower v).
-Proof. unfold lower. okp. reflexivity. Qed.
+Proof.
+  destruct v; try exact I. unfold lower. destruct (all_ascii _); cbn [okP]; [reflexivity|].
+  match goal with |- context [encode_all ?x] => generalize (encode_all x) end. intro; reflexivity.
+Qed.
 Lemma rv_upper v : okP RV (upper v).
-Proof. unfold upper. okp. reflexivity. Qed.
+Proof.
+  destruct v; try exact I. unfold upper. destruct (all_ascii _); cbn [okP]; [reflexivity|].
+  match goal with |- context [encode_all ?x] => generalize (encode_all x) end. intro; reflexivity.
+Qed.
 Lemma rv_reverse v : RV v -> okP RV (reverse v).
 Proof.
   destruct v as [| | | |a| |]; try exact (fun _ => I); [reflexivity|].
@@ -511,6 +517,7 @@ Proof. destruct v; try exact I; reflexivity. Qed.
 Lemma rv_call1 f a : RV a -> okP RV (call1 f a).
 Proof.
   intros H. destruct f; cbn [call1 okP];
+    try (match goal with |- okP RV (lower _) => apply rv_lower | |- okP RV (upper _) => apply rv_upper end);
     first [ apply rv_num1; exact H | apply rv_avg | apply rv_from_items; exact H | apply rv_items; exact H
           | apply rv_keys | apply rv_length | apply rv_lower | apply rv_array_extreme
           | apply rv_reverse; exact H | apply rv_sort_array; exact H | apply rv_sum
